@@ -126,6 +126,16 @@ TEMPLATES = [
      [dict(t=1, n=3, v=b'abc', f=5), dict(t=2, n=2, v=[258, 3], f=300), dict(t=0, n=9, v=None, f=None), dict(t=7, n=0, v=None, f=0), dict(t=True, n=1, v=b'z', f=1)]),
     ('Array(2, Struct("k"/VarInt, "b"/Switch(this.k, {0: Struct("n"/Int16ul, "d"/Bytes(this.n)), 300: Padded(4, Byte)}, default=Int32sb)))',
      [[dict(k=0, b=dict(n=2, d=b'hi')), dict(k=300, b=7)], [dict(k=5, b=-9), dict(k=0, b=dict(n=0, d=b''))]]),
+    # alternatives that fail AFTER having written something, followed by something shorter than what they wrote
+    ('Struct("hdr"/Optional(Struct("magic"/Const(b"MZ"), "ver"/Byte)), "rest"/GreedyBytes)', [dict(hdr=None, rest=b''), dict(hdr=None, rest=b'x'), dict(hdr=dict(ver=1), rest=b'ab')]),
+    ('Struct("a"/Select(Sequence(Const(b"ABCD"), Int16ub), Byte), "t"/GreedyBytes)', [dict(a=7, t=b''), dict(a=[None, 5], t=b'z')]),
+    ('Sequence(Select(Struct("k"/Const(b"long-magic"), "v"/Int32ub), Struct("v"/Byte)), GreedyBytes)', [[dict(v=300), b''], [dict(v=3), b'']]),
+    ('Prefixed(Byte, Struct("o"/Optional(Sequence(Const(b"xyz"), Byte)), "g"/GreedyBytes))', [dict(o=None, g=b'')]),
+    # padding inside bit regions whose size is not constant (the streamed path: no seeking)
+    ('BitStruct("ext"/Flag, Padding(3), "kind"/Nibble, "extra"/If(this.ext, Octet))', [dict(ext=True, kind=5, extra=200), dict(ext=False, kind=1, extra=None)]),
+    ('Bitwise(Struct("n"/Nibble, Padding(4), "v"/BitsInteger(this.n * 2), "p"/Padded(8, BitsInteger(3))))', [dict(n=4, v=200, p=5)]),
+    ('BitsSwapped(Struct("n"/Byte, "p"/Padded(3, Byte), "d"/Bytes(this.n)))', [dict(n=2, p=9, d=b'ab')]),
+    ('Bytewise(Bitwise(Struct("a"/Padded(16, BitsInteger(5)), "g"/GreedyRange(Bit))))', [dict(a=9, g=[1, 0, 1, 1, 0, 0, 0, 0])]),
     # read-to-end members behind fields that end off a byte boundary (the restreamed bit path keeps pending bits)
     ('BitStruct("tag"/Nibble, "rest"/GreedyBytes)', [dict(tag=5, rest=bytes([1, 0, 1, 1])), dict(tag=15, rest=bytes([1, 0, 1, 1] + [0, 1] * 4))]),
     ('Struct("h"/Byte, "b"/Bitwise(Struct("x"/BitsInteger(5), "y"/GreedyBytes)))', [dict(h=1, b=dict(x=17, y=bytes([1, 1, 0])))]),
@@ -165,6 +175,16 @@ def run(tier, seed):
                 cases.append(dict(src=src, op='parse', data=C.get(src).build(v)))
             except Exception:
                 pass
+    # two-feature interactions: every wrapper class over every kind of inner construct
+    rt = set(src for src, _ in C.pairs(selfdelimiting=True) if C.constructible(src))
+    for src, v in C.pairs():
+        cases.append(dict(src=src, op='build', obj=v))
+        if src in rt:
+            checks.append((src, v, {}))
+        try:
+            cases.append(dict(src=src, op='parse', data=C.get(src).build(v)))
+        except BaseException:
+            pass
     for src, v, kw in [('Struct("d"/Bytes(this._params.n), "a"/Array(this._params.n, Byte))', dict(d=b'ab', a=[1, 2]), dict(n=2)),
                        ('Struct("x"/IfThenElse(this._params.big, Int32ub, Byte))', dict(x=200), dict(big=True)),
                        ('Struct("x"/IfThenElse(this._params.big, Int32ub, Byte))', dict(x=200), dict(big=False))]:
